@@ -23,8 +23,42 @@ static const c09_class c09_classes[K_NCLASS] = {
 
 typedef struct { int klass, ch, sig, decfs; char name[80]; } c09_cfg;
 
+/* signal families: the two shared ones (mc/signals.h) plus two level-stepping voiced families generated here. The concealment code reads
+ * from the last good frame: SILK the gains of its last two 5 ms sub-frames, the LTP taps, the pitch lag, the signal type and the noise
+ * scale; CELT the pitch, the band energies and the loss duration. The stepping families put level steps (ratios 2..20, both directions),
+ * onsets, decays and voiced<->unvoiced switches at every sub-frame offset: their segment lengths (47 ms, 13 ms) are incommensurate with the
+ * 2.5..60 ms frames, so the loss positions of a window meet steps in every alignment. */
+#define C09_SIG_STEP47 100
+#define C09_SIG_STEP13 101
+#define C09_NSIG 4
+static const char *const c09_signame[C09_NSIG]={"speech","tone","steps47","steps13"};
+static int c09_sigk(int sig){ return sig==SIG_SPEECH?0:sig==SIG_MULTITONE?1:sig==C09_SIG_STEP47?2:3; }
+static const int c09_sigid[C09_NSIG]={SIG_SPEECH,SIG_MULTITONE,C09_SIG_STEP47,C09_SIG_STEP13};
+
 static void c09_cfg_name(c09_cfg *c){
-   snprintf(c->name,sizeof c->name,"%s/%s/%s/dec%dk",c09_classes[c->klass].tag,c->ch==1?"mono":"stereo",c->sig==SIG_SPEECH?"speech":"tone",c->decfs/1000);
+   snprintf(c->name,sizeof c->name,"%s/%s/%s/dec%dk",c09_classes[c->klass].tag,c->ch==1?"mono":"stereo",c09_signame[c09_sigk(c->sig)],c->decfs/1000);
+}
+/* voiced source: f0 = 150 +- 20 Hz, 10 harmonics with 1/h roll-off (peak ~1.85 x level), plus 10 LSB of noise.
+ * steps47: the level holds one of 8 values for 47 ms each: 400 ->x20 8000 ->/5 1600 ->x2 3200 ->/10 320 ->x20 6400 ->/2 3200 ->/5 640 ->/1.6 400 ...
+ * steps13: 13 ms segments, level from {500,5000,1000,10000,500,2500,8000} (x10 /5 x10 /20 x5 x3.2 /16); every 5th segment is UNVOICED (white
+ *          noise at that level: voiced<->unvoiced switches), segments 4 mod 7 DECAY exponentially (tau 5 ms), segments 6 mod 7 are ONSETS
+ *          (linear ramp over their first 5 ms). */
+typedef struct { long n; double ph; uint32_t lcg; } c09_gen;
+static double c09_rnd(c09_gen *g){ g->lcg=g->lcg*1664525u+1013904223u; return ((g->lcg>>8)&0xFFFF)/32768.0-1.0; }
+static void c09_gen_fill(c09_gen *g,int fam,int fs,int ch,short *out,int ns){
+   static const double LA[8]={400,8000,1600,3200,320,6400,3200,640}, LB[7]={500,5000,1000,10000,500,2500,8000};
+   int i,h,c;
+   for(i=0;i<ns;i++){
+      double t=(double)g->n/fs, f0=150+20*sin(2*M_PI*0.5*t), v=0, lvl, x; int voiced=1;
+      g->n++; g->ph+=2*M_PI*f0/fs; if (g->ph>2*M_PI) g->ph-=2*M_PI;
+      if (fam==C09_SIG_STEP47) lvl=LA[(long)(t/0.047)%8];
+      else { long seg=(long)(t/0.013); double tau=t-seg*0.013; lvl=LB[seg%7];
+         if (seg%5==3) voiced=0;
+         if (seg%7==4) lvl*=exp(-tau/0.005); else if (seg%7==6 && tau<0.005) lvl*=tau/0.005; }
+      if (voiced) for(h=1;h<=10;h++) v+=sin(h*g->ph)/h; else v=1.5*c09_rnd(g);
+      x=lvl*v+10*c09_rnd(g);
+      for(c=0;c<ch;c++) out[i*ch+c]=(short)sig_clip16(c?0.7*x:x);
+   }
 }
 /* number of packets of the short (tree) stream for a class: last window + 12 + room for the convergence deadline */
 static int c09_tree_packets(int klass){ int d=c09_classes[klass].dur_x10; return d==600?72:d==200?120:d==100?152:480; }
@@ -43,7 +77,21 @@ static void c09_build(corpus *cp,const c09_cfg *c,int npk){
    cc.mode=k->mode; cc.bw=k->bw; cc.dur_x10=k->dur_x10; cc.ch_force=0; cc.bitrate=c->ch==1?k->bitrate1:k->bitrate2;
    app = k->mode==REF_MODE_CELT_ONLY ? OPUS_APPLICATION_AUDIO : OPUS_APPLICATION_VOIP;
    memset(cp,0,sizeof *cp);
-   corpus_stream(cp,c->name,48000,c->ch,app,c->sig,&cc,npk+2,NULL,0,1,0,0,2);
+   if (c->sig<100){ corpus_stream(cp,c->name,48000,c->ch,app,c->sig,&cc,npk+2,NULL,0,1,0,0,2); return; }
+   {  /* same encoder set-up as corpus_stream (FEC on, expected loss 20 %, forced mode / bandwidth / bitrate), own signal */
+      int err,i,sid,fsz=(int)(48000L*cc.dur_x10/10000); OpusEncoder *e=ref_opus_encoder_create(48000,c->ch,app,&err); c09_gen g; short *pcm; unsigned char out[1500];
+      if(!e){ fprintf(stderr,"c09: encoder_create failed %d\n",err); exit(2); }
+      sid=corpus_new_stream(cp,c->name,48000,c->ch); cp->s[sid].mode=cc.mode; cp->s[sid].bw=cc.bw; cp->s[sid].dur_x10=cc.dur_x10; cp->s[sid].fec=1;
+      memset(&g,0,sizeof g); g.lcg=12345u; pcm=malloc(sizeof(short)*c->ch*fsz);
+      ref_opus_encoder_ctl(e,OPUS_SET_INBAND_FEC(1)); ref_opus_encoder_ctl(e,OPUS_SET_PACKET_LOSS_PERC(20));
+      corpus_apply(e,&cc);
+      for(i=0;i<npk+2;i++){ int n; opus_uint32 rng=0;
+         c09_gen_fill(&g,c->sig,48000,c->ch,pcm,fsz);
+         n=ref_opus_encode(e,pcm,fsz,out,1500); if(n<0){ fprintf(stderr,"c09: encode failed %d (%s)\n",n,c->name); exit(2); }
+         ref_opus_encoder_ctl(e,OPUS_GET_FINAL_RANGE(&rng));
+         if (i>=2) corpus_push(cp,out,n,sid,i,rng,cc.dur_x10*48/10,0); }
+      cp->s[sid].n=cp->n-cp->s[sid].first; free(pcm); ref_opus_encoder_destroy(e);
+   }
 }
 static void c09_free(corpus *cp){ int i; for(i=0;i<cp->n;i++) free(cp->p[i].data); free(cp->p); free(cp->s); memset(cp,0,sizeof *cp); }
 #endif
